@@ -12,7 +12,33 @@ func (e *Engine) newFctx(fi *FuncInfo) *fctx {
 	fx := &fctx{e: e, fi: fi, con: e.P.CF.Contracts[fi.Key], boxed: map[*types.Var]bool{}, counters: map[string]int{},
 		callOrd: map[string]int{}, ghostVar: map[string]*types.Var{}, closureLits: map[*types.Var]*ast.FuncLit{}, callIndex: map[*ast.CallExpr]callRef{}}
 	if fx.con != nil {
-		fx.props = fx.con.Props
+		// auxiliary obligations (safety, invariants, call preconditions) support every property any clause of
+		// this contract is tagged with
+		seen := map[string]bool{}
+		add := func(ps []string) {
+			for _, p := range ps {
+				if !seen[p] {
+					seen[p] = true
+					fx.props = append(fx.props, p)
+				}
+			}
+		}
+		add(fx.con.Props)
+		for _, cl := range fx.con.Requires {
+			add(cl.Props)
+		}
+		for _, cl := range fx.con.Ensures {
+			add(cl.Props)
+		}
+		for _, cl := range fx.con.Goals {
+			add(cl.Props)
+		}
+		for _, l := range fx.con.Loops {
+			for _, cl := range l.Invariants {
+				add(cl.Props)
+			}
+		}
+		sort.Strings(fx.props)
 	}
 	// closures bound once to locals
 	info := e.P.Info
@@ -199,6 +225,10 @@ func (e *Engine) VerifyFunc(key string) {
 			for _, cl := range fx.con.Ensures {
 				g := fx.evalClause(r.st, fx.entry, cl, b)
 				fx.assert(r.st, "post", fmt.Sprintf("%d@%s", cl.Ord, retTag), g, fi.Decl, propsOr(cl.Props, fx.props), "postcondition: "+cl.Text+" at return "+e.posStr(r.pos))
+			}
+			for _, cl := range fx.con.Goals {
+				g := fx.evalClause(r.st, fx.entry, cl, b)
+				fx.assert(r.st, "goal", fmt.Sprintf("%d@%s", cl.Ord, retTag), g, fi.Decl, propsOr(cl.Props, fx.props), "goal (not exported to callers): "+cl.Text+" at return "+e.posStr(r.pos))
 			}
 		}
 	}
